@@ -39,9 +39,10 @@ SepMenu == {<<"default", <<>>>>, <<"str", <<<<32>>>>>>, <<"list", <<<<32>>>>>>, 
 SplitCases == {[op |-> "split", x |-> TStr(s), sepform |-> m[1], seps |-> m[2], dedup |-> d] : s \in SplitTexts, m \in SepMenu, d \in BOOLEAN}
               \cup {[op |-> "split", x |-> x, sepform |-> "default", seps |-> <<>>, dedup |-> FALSE] : x \in {TInt(5), TNone}}
 
-CharTexts == SeqsUpTo({97, 66, 32, 46, 47, 92, 201, 95}, 3)
-CharCases == {[op |-> o, x |-> TStr(s)] : o \in {"as_ascii", "capitalize", "relabel_lower"}, s \in CharTexts}
-             \cup {[op |-> o, x |-> x] : o \in {"as_ascii", "capitalize", "relabel_lower", "bbgcase"}, x \in {TInt(5), TNone}}
+CharTexts == SeqsUpTo({97, 66, 32, 46, 47, 92, 201, 95, 9}, 3)
+CharOps == {"as_ascii", "capitalize", "relabel_lower", "lower", "upper", "proper", "strip"}
+CharCases == {[op |-> o, x |-> TStr(s)] : o \in CharOps, s \in CharTexts}
+             \cup {[op |-> o, x |-> x] : o \in CharOps \cup {"bbgcase"}, x \in {TInt(5), TNone}}
 
 Vocab == {<<115, 112, 120>>, <<99, 109, 111, 110>>, <<105, 110, 100, 101, 120>>, <<73, 110, 68, 101, 120>>, <<99, 111, 109, 100, 116, 121>>, <<49>>, <<60, 103, 111, 62>>, <<>>}
 BbgTexts == {JoinWith(ws, <<32>>) : ws \in UNION {[1..k -> Vocab] : k \in 1..3}}
@@ -57,10 +58,12 @@ NumBuilt == {NumBodies[i] \o gap \o Spell(Endings[k][1], how) : i \in DOMAIN Num
             \cup {Endings[k][1] : k \in DOMAIN Endings} \cup {Endings[k][1] \o Endings[j][1] : k, j \in {14, 15, 16, 17}}
 NumCases == {[op |-> "as_float", x |-> TStr(s)] : s \in SeqsUpTo(NumAlphabet, NumLen) \cup NumBuilt}
             \cup {[op |-> "as_float", x |-> x] : x \in {TInt(5), TNone}}
+F12Floats == {TFlt(n, d) : n \in -41..41, d \in {1, 8, 16}} \cup {TFlt(n, 64) : n \in {1, -1, 643, 6431, -6433, 99999, 63999}}
 MiscCases == {[op |-> "alphabet"], [op |-> "ALPHABET"]}
+             \cup {[op |-> "f12", x |-> x] : x \in F12Floats \cup {TInt(5), TNone, TStr(<<104, 105>>)}}
 
-Want(x) == IF x.op = "as_float" THEN AsFloatWant(x.x) ELSE TextWant(x)
-InDomain(x) == IF x.op = "as_float" THEN NumInDomain(x.x) ELSE TextInDomain(x)
+Want(x) == AllWant(x)
+InDomain(x) == AllInDomain(x)
 
 Universe == (IF "prefix" \in Strata THEN PrefixCases ELSE {}) \cup (IF "sep" \in Strata THEN SepCases ELSE {})
             \cup (IF "replace" \in Strata THEN ReplaceCases ELSE {}) \cup (IF "split" \in Strata THEN SplitCases ELSE {})
@@ -70,7 +73,7 @@ Universe == (IF "prefix" \in Strata THEN PrefixCases ELSE {}) \cup (IF "sep" \in
 Init == c \in Universe /\ done = FALSE
 Eval == done = FALSE /\ done' = TRUE /\ UNCHANGED c
 EvalGen == /\ Eval
-           /\ IF InDomain(c) THEN PrintT(ToJson([case |-> c, want |-> SetToSeq(Want(c))])) ELSE TRUE
+           /\ IF InDomain(c) THEN PrintT(ToJson([case |-> c, want |-> SetToSeq(Want(c)), tags |-> Tags(c)])) ELSE TRUE
 
 \* ---------------------------------------------------------------------------------------------------------
 \* the laws
@@ -126,14 +129,30 @@ ReplaceFixpoint == (Is("replace") /\ IsStrV(c.x) /\ ~Refused(c.olds, c.new) /\ I
 \* the refusal is exactly the case that could never end on a text holding the old one
 RefusalJustified == (Is("replace") /\ IsStrV(c.x) /\ Len(c.olds) = 1 /\ c.olds[1] # <<>>) =>
                 (Refused(c.olds, c.new) => Occurs(ReplaceOnce(c.olds[1], c.olds[1], c.new), c.olds[1]))
-CharMapLaws == (done /\ c.op \in {"as_ascii", "capitalize", "relabel_lower"} /\ IsStrV(c.x)) =>
+CharMapLaws == (done /\ c.op \in CharOps /\ IsStrV(c.x)) =>
                 LET s == c.x[2] IN
                 /\ Lower(Upper(Lower(s))) = Lower(s) /\ Upper(Lower(Upper(s))) = Upper(s)
                 /\ Capitalize(Capitalize(s)) = Capitalize(s) /\ Lower(Capitalize(s)) = Lower(s)
                 /\ AsAscii(AsAscii(s)) = AsAscii(s) /\ (\A i \in DOMAIN AsAscii(s) : AsAscii(s)[i] < 128)
                 /\ Len(AsAscii(s)) = Cardinality({i \in DOMAIN s : s[i] < 128 /\ ~IsControl(s[i])})
-                /\ RelabelLower(RelabelLower(s)) = RelabelLower(s)
+                /\ (\A i \in DOMAIN s : s[i] \notin {9, 10, 11, 12, 13}) => RelabelLower(RelabelLower(s)) = RelabelLower(s)    \* (a tab laid bare by the dropped punctuation goes in the second round)
                 /\ \A i \in DOMAIN RelabelLower(s) : LET k == RelabelLower(s)[i] IN k \notin Punct /\ k \notin ToUnder /\ ~IsUpperC(k)
+\* proper and strip: idempotent; proper changes case only; strip cuts blanks at both ends and nothing else
+WordLaws == (done /\ c.op \in {"proper", "strip"} /\ IsStrV(c.x)) =>
+                LET s == c.x[2] IN
+                /\ Proper(Proper(s)) = Proper(s) /\ Lower(Proper(s)) = Lower(s) /\ Len(Proper(s)) = Len(s)
+                /\ Strip(Strip(s)) = Strip(s) /\ Occurs(s, Strip(s))
+                /\ Strip(s) = <<>> \/ (~IsSpaceC(Strip(s)[1]) /\ ~IsSpaceC(Strip(s)[Len(Strip(s))]))
+                /\ SelectSeq(s, LAMBDA k : ~IsSpaceC(k)) = SelectSeq(Strip(s), LAMBDA k : ~IsSpaceC(k))
+\* f12: two decimals, within half a hundredth of the number
+RECURSIVE TxNat(_)
+TxNat(ds) == IF ds = <<>> THEN 0 ELSE 10 * TxNat(TxTake(ds, Len(ds) - 1)) + (ds[Len(ds)] - 48)
+F12Nearest == (Is("f12") /\ c.x[1] = "f") =>
+                LET n == c.x[2][1]  d == c.x[2][2]  t == F12(n, d)  u == IF t[1] = 45 THEN Tail(t) ELSE t
+                    h == TxNat(SelectSeq(u, LAMBDA k : k # 46))  a == IF n < 0 THEN -n ELSE n
+                    diff == IF h * d >= a * 100 THEN h * d - a * 100 ELSE a * 100 - h * d IN
+                /\ u[Len(u) - 2] = 46 /\ (t[1] = 45) = (n < 0)
+                /\ 2 * diff <= d
 BbgLaws == (Is("bbgcase") /\ IsStrV(c.x) /\ InDomain(c)) =>
                 LET s == c.x[2] IN BbgCase(BbgCase(s)) = BbgCase(s) /\ Upper(BbgCase(s)) = Upper(s) /\ BbgCase(Upper(s)) = BbgCase(s)
 \* as_float: the table of endings is consistent (first fit = longest fit), blanks and commas never matter, a leading
